@@ -450,7 +450,9 @@ class SceneGraph:
         nodes : (n,) array
           All node names.
         """
-        return self.transforms.nodes
+        # a list rather than the live `dict_keys` view of the forest
+        # which can't be pickled or deep-copied along with the cache
+        return list(self.transforms.nodes)
 
     @caching.cache_decorator
     def nodes_geometry(self):
